@@ -307,6 +307,13 @@ def run_property(pid, tier, keep=False, seed=0):
                                            [{'message': kr.get('failed_checks', 'kani harness failed'), 'spans': [], 'rendered': kr.get('output', '')[-6000:], '_clause': kr['harness'], '_cex': W0.from_kani(kr, REPO) if kr.get('cex') else None}]))
                 obligations.append(ob)
 
+        # ---- thorough tier: audit the executable part of the assumed std contracts against the real std
+        audit = None
+        if tier == 'thorough':
+            audit = run_audit(scratch)
+            if audit['failures'] != 0:
+                undecided.append('prelude assumption audit disagrees with real std: %s' % '; '.join(audit['lines'][:3]))
+
         # ---- report
         rc = 0
         replay_paths = []
@@ -413,6 +420,7 @@ def run_property(pid, tier, keep=False, seed=0):
                 'proved_clauses': claim.get('proved', []),
                 'known_findings_printed': known_printed,
                 'undecided': undecided,
+                'assumption_audit': audit,
                 'samples': samples,
                 'units': [r['unit'] for r in results],
             },
@@ -431,6 +439,23 @@ def run_property(pid, tier, keep=False, seed=0):
             log('scratch kept: %s' % scratch)
         else:
             shutil.rmtree(scratch, ignore_errors=True)
+
+
+def run_audit(scratch):
+    """/verif/audit: executable re-statement of the ASSUMED[...] std contracts compared with real std on enumerated inputs."""
+    import subprocess
+    env = dict(os.environ, CARGO_TARGET_DIR=os.path.join(scratch, 'audit_target'), CARGO_NET_OFFLINE='true')
+    t0 = time.time()
+    try:
+        p = subprocess.run(['cargo', 'run', '--offline', '-q', '--release'], cwd=os.path.join(VERIF, 'audit'), env=env,
+                           capture_output=True, text=True, timeout=900)
+    except subprocess.TimeoutExpired:
+        return {'checks': 0, 'failures': -1, 'lines': ['timeout'], 'wall_s': time.time() - t0}
+    m = re.search(r'AUDIT checks=(\d+) failures=(\d+)', p.stdout)
+    if not m:
+        return {'checks': 0, 'failures': -1, 'lines': (p.stdout + p.stderr).strip().split('\n')[-5:], 'wall_s': time.time() - t0}
+    return {'checks': int(m.group(1)), 'failures': int(m.group(2)), 'lines': [l for l in p.stdout.split('\n') if l.startswith('PRELUDE-AUDIT-FAIL')],
+            'wall_s': round(time.time() - t0, 1), 'what': 'std::path components/push/pop/join/parent/file_name/collect/as_path/canonical form, str byte/char/boundary/prefix/suffix/contains/split/find/trim_start_matches, Vec iterator nth/rev/last/count: prelude spec functions vs real std on all strings up to length 4-6 over small alphabets'}
 
 
 def baseline():
